@@ -9,14 +9,16 @@ PROP = 'C14'
 
 
 def templates(tier):
-    n = 4 if tier == 'quick' else 5
+    n = 4 if tier == 'quick' else 6
     ts = [('all-%d' % n, [SYM] * n, 1)]
     # token boundaries, comments and line bookkeeping behind a concrete prefix
     ts += [('after-newline-comment', T('a//x\n\n b', 2), 8),
            ('after-crlf', T('x\r\n\ty', 2), 6),
            ('keyword-tail', T('retur', 2), 5),
            ('type-tail', T('word12', 2), 6),
-           ('builtin-tail', T('ab!', 2), 3)]
+           ('builtin-tail', T('ab!', 2), 3),
+           ('hex-max-payload', T('0x' + 'f' * 31, 2), 33),
+           ('two-payloads', T('7 0x', 3), 4)]
     if tier != 'quick':
         ts += [('two-strings', T('"a" "', 3), 5), ('usize-tail', T('usiz', 3), 4)]
     return ts
